@@ -537,12 +537,6 @@ class Core(composites.Composite):
                     )
                 )
 
-        composites.Composite.add(self, a)
-        if spatialLocator is not None:
-            a.moveTo(spatialLocator)
-
-        self.childrenByLocator[spatialLocator] = a
-        # build a lookup table for history tracking.
         if aName in self.assembliesByName and self.assembliesByName[aName] != a:
             # try to keep assem numbering correct
             runLog.error(
@@ -552,6 +546,12 @@ class Core(composites.Composite):
             )
             raise RuntimeError("Core already contains an assembly with the same name.")
 
+        composites.Composite.add(self, a)
+        if spatialLocator is not None:
+            a.moveTo(spatialLocator)
+
+        self.childrenByLocator[spatialLocator] = a
+        # build a lookup table for history tracking.
         self.assembliesByName[aName] = a
         for b in a:
             self.blocksByName[b.getName()] = b
